@@ -5,7 +5,7 @@
                        number of threads, every interleaving).
    Proofs: Pg/Proofs.v, Pg/ConcProofs.v. *)
 From Coq Require Import List NArith Bool.
-From RV Require Import Pg.Model Pg.Proofs Pg.Conc Pg.ConcProofs Pg.ConcProofs2.
+From RV Require Import Pg.Model Pg.Proofs Pg.Conc Pg.ConcProofs Pg.ConcProofs2 Pg.OracleProofs.
 Import ListNotations.
 Local Open Scope N_scope.
 
@@ -186,6 +186,17 @@ Proof.
   - apply no_leak_quiescent; auto.
 Qed.
 
+(* ------------------------------------------------------------------------------------
+   Part 3: the executable oracle
+   ------------------------------------------------------------------------------------ *)
+(* check_C11 accepts the views of every history of the atomic model whose operations stay in
+   the universe it enumerates (duplicate-free scope/group/actor lists, scope 0 reserved for
+   "all scopes"): it can never raise a false alarm on model-conforming behaviour *)
+Theorem C11_oracle_sound : forall u ops,
+  wf_u u -> forallb (op_in u) ops = true ->
+  check_C11 u ops (run_views u pg0 ops) = true.
+Proof. exact check_C11_sound. Qed.
+
 (* OPEN_PLACEHOLDER *)
 
 (* ---- statement pins ---- *)
@@ -267,3 +278,4 @@ Print Assumptions C11_accepted_only_alive.
 Print Assumptions C11_forward_recorded.
 Print Assumptions C11_index_agree_conc.
 Print Assumptions C11_no_leak.
+Print Assumptions C11_oracle_sound.
